@@ -20,6 +20,7 @@ IntParts ==
    "99999999999999999999999999999999999999",           \* 10^38-1
    "440282366920938463463374607431768211456",          \* 2^128 + 10^38 (wraps to 10^38 in 128 bits)
    "17014118346046923173168730371588410572", "1701411834604692317316873037158841057",       \* floor(MAX/10), floor(MAX/100)
+   "18446744073709551615", "17014118346046923174",                                           \* 2^64-1, floor(MAX/10^19)+1: word boundary x scaling bound
    "1" \o Rep("0", 39), Rep("9", 40)} \cup
   (IF Tier = "thorough" THEN {"17014118346046923173168730371588410571", "340282366920938463463374607431768211455",
                               "340282366920938463463374607431768211456", "510423550381407695195061911147652317183", Rep("0", 40) \o "5", "1" \o Rep("0", 20)} ELSE {})
